@@ -381,7 +381,8 @@ def otherFlags (fs : List Nat) : List Nat := parserFlags.filter (fun g => !fs.co
 
 /-- The general form.  `LocalTo G cs block`: for every parser flag NOT in `G` the block does not
     contain the syntax that flag reinterprets (one clause per flag: `modsCore`, `aliasCore`,
-    `rangeCore`, `advCore`, `timerCore`, `metaKeyCore`).  Then any two extension sets that agree on
+    `rangeCore`, `advCore`, `timerCore`, `metaKeyCore`; for INTERMEDIATE_PREPARATIONS alone, with
+    COMPONENT_MODIFIERS in `G`: `interCore`).  Then any two extension sets that agree on
     the flags of `G` give the same events and panic flag on the block, whatever events came before.
     `G = []` is `C02_parser_ext_irrelevant`, `G = parserFlags` is `C02_parser_flags_only`, `G` = all
     flags but MODES is `C02_modes_local`; every other mixture is new. -/
@@ -412,7 +413,7 @@ theorem C02_alias_local (cs : CharSpec) (e₁ e₂ : Ext) (oldStyle : Bool) (blo
     (h : aliasCore block = true) :
     runBlock cs e₁ oldStyle block evs p = runBlock cs e₂ oldStyle block evs p :=
   runBlock_local cs e₁ e₂ oldStyle block evs p ha
-    ⟨Or.inl ⟨by decide, by decide⟩, Or.inr h, Or.inl (by decide), Or.inl (by decide), Or.inl (by decide),
+    ⟨Or.inl ⟨by decide, Or.inl (by decide)⟩, Or.inr h, Or.inl (by decide), Or.inl (by decide), Or.inl (by decide),
      Or.inl (by decide)⟩
 
 /-- RANGE_VALUES changes only quantities with a `-`: on a block where no `{quantity}` of a long-form
@@ -424,7 +425,7 @@ theorem C02_range_local (cs : CharSpec) (e₁ e₂ : Ext) (oldStyle : Bool) (blo
     (h : rangeCore block = true) :
     runBlock cs e₁ oldStyle block evs p = runBlock cs e₂ oldStyle block evs p :=
   runBlock_local cs e₁ e₂ oldStyle block evs p ha
-    ⟨Or.inl ⟨by decide, by decide⟩, Or.inl (by decide), Or.inr h, Or.inl (by decide), Or.inl (by decide),
+    ⟨Or.inl ⟨by decide, Or.inl (by decide)⟩, Or.inl (by decide), Or.inr h, Or.inl (by decide), Or.inl (by decide),
      Or.inl (by decide)⟩
 
 /-- ADVANCED_UNITS changes (in the parser) only quantities of the shape value, blank, word without `%`:
@@ -436,7 +437,7 @@ theorem C02_advanced_local (cs : CharSpec) (e₁ e₂ : Ext) (oldStyle : Bool) (
     (h : advCore block = true) :
     runBlock cs e₁ oldStyle block evs p = runBlock cs e₂ oldStyle block evs p :=
   runBlock_local cs e₁ e₂ oldStyle block evs p ha
-    ⟨Or.inl ⟨by decide, by decide⟩, Or.inl (by decide), Or.inl (by decide), Or.inr h, Or.inl (by decide),
+    ⟨Or.inl ⟨by decide, Or.inl (by decide)⟩, Or.inl (by decide), Or.inl (by decide), Or.inr h, Or.inl (by decide),
      Or.inl (by decide)⟩
 
 /-- TIMER_REQUIRES_TIME changes only timers without a quantity: on a block where every `~` is followed
@@ -448,7 +449,7 @@ theorem C02_timer_time_local (cs : CharSpec) (e₁ e₂ : Ext) (oldStyle : Bool)
     (h : timerCore block = true) :
     runBlock cs e₁ oldStyle block evs p = runBlock cs e₂ oldStyle block evs p :=
   runBlock_local cs e₁ e₂ oldStyle block evs p ha
-    ⟨Or.inl ⟨by decide, by decide⟩, Or.inl (by decide), Or.inl (by decide), Or.inl (by decide), Or.inr h,
+    ⟨Or.inl ⟨by decide, Or.inl (by decide)⟩, Or.inl (by decide), Or.inl (by decide), Or.inl (by decide), Or.inr h,
      Or.inl (by decide)⟩
 
 /-- … and on whole inputs: if the flag's clause holds for every block of the input, the event stream
@@ -475,6 +476,52 @@ theorem C02_single_flag_local_input (cs : CharSpec) (e₁ e₂ : Ext) (input : L
       (fun oldStyle b hb evs p => C02_advanced_local cs e₁ e₂ oldStyle b evs p ha hb),
    fun ha h => pullEvents_congr cs e₁ e₂ input _ h
       (fun oldStyle b hb evs p => C02_timer_time_local cs e₁ e₂ oldStyle b evs p ha hb)⟩
+
+/-- which ingredient events carry an intermediate reference -/
+def C02.obsI (e : Nat) (b : List Tok) : List Bool :=
+  (runBlock (α := Rat) toyCharSpec ⟨e⟩ true b #[] none).1.toList.map (fun ev => match ev with
+    | .ingredient i => i.val.inter.isSome
+    | _ => false)
+
+/-- INTERMEDIATE_PREPARATIONS alone (the gap "trigger `&(`"): with COMPONENT_MODIFIERS answering alike in
+    both sets (on or off — `bitflags`: INTERMEDIATE_PREPARATIONS contains the COMPONENT_MODIFIERS bit, so
+    it can only be on when COMPONENT_MODIFIERS is), the flag changes only components with an `&` modifier
+    directly followed by `(`: on a block without a `&` token directly followed by a `(` token (`interCore`),
+    two extension sets that agree on the other six parser flags give the same events — the block may use
+    `&` references and all other modifiers, aliases, ranges, advanced units, quantity-less timers.
+    Both places that read the flag are covered: `modifiers()` (the attempt to consume `( … )` after `&`)
+    and `parse_modifiers` (`parse_intermediate_ref_data`). -/
+theorem C02_intermediate_local (cs : CharSpec) (e₁ e₂ : Ext) (oldStyle : Bool) (block : List Tok)
+    (evs : Array (Ev α)) (p : Option String)
+    (ha : AgreeOn (otherFlags [Gen.EXT_INTERMEDIATE_PREPARATIONS]) e₁ e₂) (h : interCore block = true) :
+    runBlock cs e₁ oldStyle block evs p = runBlock cs e₂ oldStyle block evs p :=
+  runBlock_local cs e₁ e₂ oldStyle block evs p ha
+    ⟨Or.inl ⟨by decide, Or.inr h⟩, Or.inl (by decide), Or.inl (by decide), Or.inl (by decide), Or.inl (by decide),
+     Or.inl (by decide)⟩
+
+/-- … and on whole inputs (event stream of the pull parser) -/
+theorem C02_intermediate_local_input (cs : CharSpec) (e₁ e₂ : Ext) (input : List Char)
+    (ha : AgreeOn (otherFlags [Gen.EXT_INTERMEDIATE_PREPARATIONS]) e₁ e₂)
+    (h : AllBlocksOf cs input interCore = true) :
+    pullEvents (α := α) cs e₁ input = pullEvents cs e₂ input :=
+  pullEvents_congr cs e₁ e₂ input _ h
+    (fun oldStyle b hb evs p => C02_intermediate_local cs e₁ e₂ oldStyle b evs p ha hb)
+
+/-- `@&flour{}`: a `&` reference, no `&(`; `@&(1)x{}`: an intermediate reference.  The clause holds for
+    the first (although it has a modifier: `modsCore` fails) and fails for the second, which is really
+    read differently by `{MODIFIERS}` and `{MODIFIERS, INTERMEDIATE}`; these two sets agree on all other
+    flags. -/
+example : let b1 := C02.toks [(.at, ['@']), (.and, ['&']), (.word, ['f','l','o','u','r']), (.openBrace, ['{']),
+      (.closeBrace, ['}'])]
+    let b2 := C02.toks [(.at, ['@']), (.and, ['&']), (.openParen, ['(']), (.int, ['1']), (.closeParen, [')']),
+      (.word, ['x']), (.openBrace, ['{']), (.closeBrace, ['}'])]
+    interCore b1 = true ∧ modsCore b1 = false ∧ interCore b2 = false ∧
+    C02.obsI Gen.EXT_COMPONENT_MODIFIERS b2 ≠ C02.obsI Gen.EXT_INTERMEDIATE_PREPARATIONS b2 ∧
+    AgreeOn (otherFlags [Gen.EXT_INTERMEDIATE_PREPARATIONS]) ⟨Gen.EXT_INTERMEDIATE_PREPARATIONS⟩ ⟨Gen.EXT_COMPONENT_MODIFIERS⟩ ∧
+    (⟨Gen.EXT_INTERMEDIATE_PREPARATIONS⟩ : Ext).has Gen.EXT_INTERMEDIATE_PREPARATIONS ≠
+      (⟨Gen.EXT_COMPONENT_MODIFIERS⟩ : Ext).has Gen.EXT_INTERMEDIATE_PREPARATIONS := by
+  refine ⟨by decide, by decide, by decide, by decide +kernel, ?_, by decide⟩
+  intro g hg; revert g; decide
 
 /-- `@?a{1-2 kg} ~b`: a modifier, a range, advanced units, a timer without quantity — but no `|` -/
 def C02.mixedBlock : List Tok := C02.toks [(.at, ['@']), (.question, ['?']), (.word, ['a']), (.openBrace, ['{']),
@@ -792,6 +839,18 @@ theorem C02_modifiers_local_parse (env : Env) (e : Ext) (input : Str)
       ⟨Or.inr hb, Or.inl (by decide), Or.inl (by decide), Or.inl (by decide), Or.inl (by decide),
        Or.inl (by decide)⟩) h)
 
+/-- INTERMEDIATE_PREPARATIONS alone changes only `&(…)` references, in the whole `parse`: on an input no
+    block of which has a `&` token directly followed by a `(` token (`interCore`), extension sets that
+    agree on the other seven flags (COMPONENT_MODIFIERS included) give the same full result. -/
+theorem C02_intermediate_local_parse (env : Env) (e : Ext) (input : Str)
+    (ha : AgreeOn (otherFlagsAll [Gen.EXT_INTERMEDIATE_PREPARATIONS]) e env.ext)
+    (h : AllBlocksOf env.cs input interCore = true) :
+    parseRecipe (α := α) (env.withExt e) input = parseRecipe env input :=
+  C02_parse_parser_flag_local _ (by decide) env e input ha
+    (c02lift_allBlocksOf_mono env.cs input _ _ (fun b hb => c02lift_localToB_of
+      ⟨Or.inl ⟨by decide, Or.inr hb⟩, Or.inl (by decide), Or.inl (by decide), Or.inl (by decide), Or.inl (by decide),
+       Or.inl (by decide)⟩) h)
+
 /-- COMPONENT_ALIAS changes only names with a `|`, in the whole `parse` (clause `aliasCore` on every block) -/
 theorem C02_alias_local_parse (env : Env) (e : Ext) (input : Str)
     (ha : AgreeOn (otherFlagsAll [Gen.EXT_COMPONENT_ALIAS]) e env.ext)
@@ -799,7 +858,7 @@ theorem C02_alias_local_parse (env : Env) (e : Ext) (input : Str)
     parseRecipe (α := α) (env.withExt e) input = parseRecipe env input :=
   C02_parse_parser_flag_local _ (by decide) env e input ha
     (c02lift_allBlocksOf_mono env.cs input _ _ (fun b hb => c02lift_localToB_of
-      ⟨Or.inl ⟨by decide, by decide⟩, Or.inr hb, Or.inl (by decide), Or.inl (by decide), Or.inl (by decide),
+      ⟨Or.inl ⟨by decide, Or.inl (by decide)⟩, Or.inr hb, Or.inl (by decide), Or.inl (by decide), Or.inl (by decide),
        Or.inl (by decide)⟩) h)
 
 /-- RANGE_VALUES changes only quantities with a `-`, in the whole `parse` (clause `rangeCore` on every block) -/
@@ -809,7 +868,7 @@ theorem C02_range_local_parse (env : Env) (e : Ext) (input : Str)
     parseRecipe (α := α) (env.withExt e) input = parseRecipe env input :=
   C02_parse_parser_flag_local _ (by decide) env e input ha
     (c02lift_allBlocksOf_mono env.cs input _ _ (fun b hb => c02lift_localToB_of
-      ⟨Or.inl ⟨by decide, by decide⟩, Or.inl (by decide), Or.inr hb, Or.inl (by decide), Or.inl (by decide),
+      ⟨Or.inl ⟨by decide, Or.inl (by decide)⟩, Or.inl (by decide), Or.inr hb, Or.inl (by decide), Or.inl (by decide),
        Or.inl (by decide)⟩) h)
 
 /-- TIMER_REQUIRES_TIME changes only timers without a quantity, in the whole `parse` (clause `timerCore`
@@ -820,7 +879,7 @@ theorem C02_timer_time_local_parse (env : Env) (e : Ext) (input : Str)
     parseRecipe (α := α) (env.withExt e) input = parseRecipe env input :=
   C02_parse_parser_flag_local _ (by decide) env e input ha
     (c02lift_allBlocksOf_mono env.cs input _ _ (fun b hb => c02lift_localToB_of
-      ⟨Or.inl ⟨by decide, by decide⟩, Or.inl (by decide), Or.inl (by decide), Or.inl (by decide), Or.inr hb,
+      ⟨Or.inl ⟨by decide, Or.inl (by decide)⟩, Or.inl (by decide), Or.inl (by decide), Or.inl (by decide), Or.inr hb,
        Or.inl (by decide)⟩) h)
 
 /-- ADVANCED_UNITS is read by the parser AND by the analysis: on an input every `{quantity}` of which the
@@ -836,7 +895,7 @@ theorem C02_advanced_local_parse (env : Env) (e : Ext) (input : Str)
     parseRecipe (α := α) (env.withExt e) input = parseRecipe env input :=
   c02lift_parseRecipe_local _ env e input ha
     (c02lift_allBlocksOf_mono env.cs input _ _ (fun b hb => c02lift_localToB_of
-      ⟨Or.inl ⟨by decide, by decide⟩, Or.inl (by decide), Or.inl (by decide), Or.inr hb, Or.inl (by decide),
+      ⟨Or.inl ⟨by decide, Or.inl (by decide)⟩, Or.inl (by decide), Or.inl (by decide), Or.inr hb, Or.inl (by decide),
        Or.inl (by decide)⟩) h)
     (c02lift_evsLocalB_of _ env _ (fun ev hv =>
       c02lift_evLocalB_adv env _ ev (by decide) (by decide) (List.all_eq_true.mp hev ev hv)))
@@ -852,7 +911,7 @@ theorem C02_modes_local_parse (env : Env) (e : Ext) (input : Str)
     parseRecipe (α := α) (env.withExt e) input = parseRecipe env input :=
   c02lift_parseRecipe_local _ env e input ha
     (c02lift_allBlocksOf_mono env.cs input _ _ (fun b hb => c02lift_localToB_of
-      ⟨Or.inl ⟨by decide, by decide⟩, Or.inl (by decide), Or.inl (by decide), Or.inl (by decide), Or.inl (by decide),
+      ⟨Or.inl ⟨by decide, Or.inl (by decide)⟩, Or.inl (by decide), Or.inl (by decide), Or.inl (by decide), Or.inl (by decide),
        Or.inr hb⟩) h)
     (c02lift_evsLocalB_of _ env _ (fun ev hv =>
       c02lift_evLocalB_modes env _ ev (by decide) (by decide) (List.all_eq_true.mp hev ev hv)))
@@ -866,7 +925,7 @@ theorem C02_inline_local_parse (env : Env) (e : Ext) (input : Str)
     parseRecipe (α := α) (env.withExt e) input = parseRecipe env input :=
   c02lift_parseRecipe_local _ env e input ha
     (c02lift_allBlocksOf_mono env.cs input _ _ (fun b _ => c02lift_localToB_of
-      ⟨Or.inl ⟨by decide, by decide⟩, Or.inl (by decide), Or.inl (by decide), Or.inl (by decide), Or.inl (by decide),
+      ⟨Or.inl ⟨by decide, Or.inl (by decide)⟩, Or.inl (by decide), Or.inl (by decide), Or.inl (by decide), Or.inl (by decide),
        Or.inl (by decide)⟩) (c02lift_allBlocksOf_true env.cs input))
     (c02lift_evsLocalB_of _ env _ (fun ev hv =>
       c02lift_evLocalB_inline env _ ev (by decide) (by decide) (List.all_eq_true.mp hev ev hv)))
